@@ -170,7 +170,7 @@ K_TYPER_BLIND = "type-inference-ignores-branch-conditions-and-guard"
 K_LINSOLVE = "cyclic-solver-linsolve-gives-up-on-algebraic-roots"
 
 
-def blind_unbounded_vars(prog, params, inits, rounds=12, cap=25):
+def blind_unbounded_vars(prog, params, inits, rounds=12, cap=25, atoms=None):
     """Condition-blind value-set analysis (what a typer that ignores guards and branch conditions can know):
     every assignment in the body is considered executable in every iteration.  Returns the set of variables
     whose value set exceeds `cap` values or becomes continuous."""
@@ -257,6 +257,15 @@ def blind_unbounded_vars(prog, params, inits, rounds=12, cap=25):
     else:
         # value sets that still grow after the last round have no condition-blind bound
         bad |= grew
+    if atoms is not None:
+        # non-reduced comparison atoms (d >= f): normalization tests the alias lhs - rhs, whose condition-blind value set can exceed the
+        # cap although every variable in it stays below it
+        for (lhs, rhs) in atoms:
+            from .lang.ast import binop
+            vals = expr_values(binop("-", lhs, rhs))
+            if vals is None or len(vals) > cap:
+                bad.add("<atom>")
+                break
     return bad
 
 
@@ -279,10 +288,27 @@ def classify_refusal(case, refusal_key, message):
             if s[0] == "if":
                 for c, _ in s[1]:
                     cond_vars(c, cvars)
-    bad = blind_unbounded_vars(prog, frac_dec(case["params"]), frac_dec(case["inits"]))
+    atoms = []
+
+    def collect(c):
+        if c[0] == "atom":
+            if not (c[1][0] == "var" and c[3][0] == "num"):
+                atoms.append((c[1], c[3]))
+        elif c[0] == "not":
+            collect(c[1])
+        elif c[0] in ("and", "or"):
+            collect(c[1])
+            collect(c[2])
+    collect(prog.guard)
+    for blk in (prog.init, prog.body):
+        for s in walk_stmts(blk):
+            if s[0] == "if":
+                for c, _ in s[1]:
+                    collect(c)
+    bad = blind_unbounded_vars(prog, frac_dec(case["params"]), frac_dec(case["inits"]), atoms=atoms)
     if bad is None:
         return None
-    if cvars & bad:
+    if (cvars | {"<atom>"}) & bad:
         return K_TYPER_BLIND
     return None
 
